@@ -7,6 +7,7 @@ mod lattice;
 mod mbuilder;
 mod pbuilder;
 mod models;
+mod parjac;
 mod prob;
 mod report;
 mod sc;
@@ -81,6 +82,12 @@ fn main() {
             let fits: usize = args.get(4).map(|s| s.parse().unwrap()).unwrap_or(300);
             let timeout: u64 = args.get(5).map(|s| s.parse().unwrap()).unwrap_or(20);
             c08::run(path, stride, fits, timeout)
+        }
+        "pairs" => fittrace::run_pairs(args.get(2).map(|s| s.parse().unwrap()).unwrap_or(100)),
+        "parjac" => {
+            let prefix = args.get(2).expect("output prefix");
+            let count: usize = args.get(3).map(|s| s.parse().unwrap()).unwrap_or(60);
+            parjac::run(prefix, count)
         }
         "history" => history::run(args.get(2).expect("export file")),
         "stationary" => stationary::run(args.get(2).expect("export file")),
